@@ -481,6 +481,9 @@ func lexQString(l *lexer) stateFn {
 			over = true
 			text = append(text, []byte(string(c))...)
 		case '\\':
+			// Remember where the backslash is, the escaped
+			// character may be a line break.
+			eline, ecol := l.line, l.col-1
 			switch c = l.next(); c {
 			case 'n':
 				c = '\n'
@@ -496,7 +499,7 @@ func lexQString(l *lexer) stateFn {
 				// (e..g., \{) or to be part of of a special
 				// sequence such as \S.
 				if !l.inPattern {
-					l.ErrorfAt(l.line, l.col-2, `invalid escape sequence: \`+string(c))
+					l.ErrorfAt(eline, ecol, `invalid escape sequence: \`+string(c))
 				}
 				text = append(text, '\\')
 			}
